@@ -428,6 +428,92 @@ def judge(rep, cases, out, stats):
                               replay, key="C04:rss")
 
 
+
+# ----------------------------------------------------------------------------- model tie
+
+def check_model_tie(rep, drv, run, cases, tmp, tag):
+    """cases: (name, bytes, label).  For every case x three modes: observe the modelled decisions one by one
+    (harness op `probe`) and compare with what the extracted PageBoundsModel predicts."""
+    lines, keys = [], []
+    for i, (name, data, label) in enumerate(cases):
+        p = tmp / f"{tag}{i}.parquet"
+        p.write_bytes(data)
+        for mode in range(3):
+            lines.append(f"probe {mode} {p}")
+            keys.append((i, mode))
+    out, probs = run_sharded(drv, lines, timeout=3000, env=ENV)
+    for pr in probs:
+        rep.tie_broken(f"driver process died outside a forked case (rc={pr[1]}): {pr[2][-300:]}", pr[3])
+    mlines, mref = [], []
+    compared = 0
+    for (i, mode), li, o in zip(keys, lines, out):
+        name, data, label = cases[i]
+        if o.startswith("FAULT"):
+            rep.violation(f"{MODES[mode]} reader, probe of the modelled decisions, mutation {label} of {name}: {o[:260]}",
+                          {"seed_file": name, "mutation": label, "mode": mode, "script": "M/R7", "file_hex": data.hex(), "observed": o[:400]},
+                          key=key_of(o))
+            continue
+        if not o.startswith("OK") or " open=0" not in o or " big=1" in o or " S=" not in o:
+            continue
+        head, *chunks = o.split(" @")
+        d = dict(t.split("=", 1) for t in head.split() if "=" in t)
+        sch, lv, rgs = d.get("S", "-") or "-", d.get("LV", "-") or "-", d.get("RG", "")
+        path = "stdio" if mode == 0 else "mapped"
+        for ch in chunks:
+            t = ch.split()
+            g, c = t[0].split(",")
+            cd = dict(x.split("=", 1) for x in t[1:] if "=" in x)
+            if "gc" not in cd:
+                continue
+            mlines.append(f"getcol cur {sch} {lv} {rgs or 'none'} {g} {c}")
+            mref.append(("gc", i, mode, g, c, cd))
+            if cd["gc"] == "0" and "L" in cd and "T" in cd:
+                hd, do, da = cd["D"].split(",")
+                dhex = f"{hd},{int(do):x},{int(da):x}".replace(",-", ",-")
+                mlines.append(f"firstload cur {path} {d['n']} {cd['T']} {dhex} {cd.get('H1', 'none')} {cd.get('H2', 'none')}")
+                mref.append(("load", i, mode, g, c, cd))
+    mout, mp = run_sharded(run, mlines, timeout=3000) if mlines else ([], [])
+    for pr in mp:
+        rep.tie_broken(f"model runner died (rc={pr[1]}): {pr[2][-300:]}", pr[3])
+    for (kind, i, mode, g, c, cd), ml, mo in zip(mref, mlines, mout):
+        name, data, label = cases[i]
+        compared += 1
+        where = f"{MODES[mode]} rg={g} col={c}, mutation {label} of {name}"
+        if cd.get("LBAD") == "1":
+            rep.violation(f"a failing page load did not report a non-OK code with a terminated message ({where})",
+                          {"seed_file": name, "mutation": label, "mode": mode, "script": "M/R7", "file_hex": data.hex()}, key="C04:baderr")
+        if mo.startswith("RUNNER-ERROR"):
+            rep.tie_broken(f"model runner: {mo} on {ml[:200]}", ml[:200])
+            continue
+        if kind == "gc":
+            got = int(cd["gc"])
+            if got == -1:
+                rep.violation(f"get_column failed without a non-OK code / terminated message ({where})",
+                              {"seed_file": name, "mutation": label, "mode": mode, "script": "M", "file_hex": data.hex()}, key="C04:baderr")
+            want = 0 if mo.startswith("OK") else (int(mo[1:]) if mo.startswith("E") else None)
+            if want is None:
+                rep.tie_broken(f"PageBoundsModel.get_column predicts an out-of-bounds access, the code returned {got} ({where})", ml[:300])
+            elif want != got:
+                rep.tie_broken(f"get_column: model {mo}, implementation {got} ({where})", ml[:300])
+        else:
+            L = int(cd["L"])
+            md = dict(x.split("=", 1) for x in mo.split())
+            if "FAULT" in md.values():
+                rep.tie_broken(f"PageBoundsModel predicts an out-of-bounds access in the first page load ({mo}), the load returned {L} ({where})", ml[:300])
+            elif L == 2:
+                pass        # OUT_OF_MEMORY: whether a malloc succeeds is the environment's choice, outside the model
+            elif md["first"].startswith("E"):
+                # stdio: whether an unusable position shows up at fseek (14) or at fread (12) is the C library's choice
+                norm = (lambda c: 12 if (mode == 0 and c == 14) else c)
+                if norm(int(md["first"][1:])) != norm(L):
+                    rep.tie_broken(f"first page load: model {md['first']}, implementation {L} ({where})", ml[:300])
+            elif L == 0:
+                bad = [k for k in ("dict", "second", "view") if md[k].startswith("E")]
+                if bad:
+                    rep.tie_broken(f"first page load succeeded although the model rejects it at stage {bad[0]} ({mo}) ({where})", ml[:300])
+    rep.cov["model_decisions_compared"] = rep.cov.get("model_decisions_compared", 0) + compared
+
+
 def corpus_cases():
     d = vlib.VERIF / "corpus" / PID
     out = []
@@ -474,7 +560,7 @@ def run(tier):
                 rep.tie_broken(f"a valid seed file is not read cleanly ({c[0]}, {MODES[c[3]]}, {c[4]}): {o[:200]}", c[0])
         judge(rep, cases, out, stats)
         # 3. mutants
-        nmut = 2500 if tier == "quick" else 40000
+        nmut = 9000 if tier == "quick" else 60000
         cases = []
         for i in range(nmut):
             name, data = seeds[i % len(seeds)]
@@ -488,6 +574,19 @@ def run(tier):
             part = cases[a:a + 6000]
             out = run_cases(rep, drv, part, tmp, "m")
             judge(rep, part, out, stats)
+        # 4. model tie on the seeds, the corpus and every fifth mutant
+        try:
+            run_ = build_runner("robust")
+            tcases = [(n, d, "unmutated") for (n, d) in seeds] + [(n, d, l) for (n, d, l, m0, s0) in cc]
+            seen = set()
+            for (n, d, l, mode, sc) in cases[::15]:
+                h = hashlib.sha1(d).digest()
+                if h not in seen:
+                    seen.add(h)
+                    tcases.append((n, d, l))
+            check_model_tie(rep, drv, run_, tcases, tmp, "t")
+        except vlib.BuildError as e:
+            rep.tie_broken("model runner does not build: " + str(e)[:400])
         rep.sample({"mutation": cases[0][2], "mode": MODES[cases[0][3]], "script": cases[0][4], "file_bytes": len(cases[0][1])})
         rep.sample({"mutation": cases[-1][2], "mode": MODES[cases[-1][3]], "script": cases[-1][4], "file_bytes": len(cases[-1][1])})
     finally:
